@@ -1,9 +1,9 @@
 #!/bin/bash
-# seedtry.sh <seed-id> <harness> <params> : development helper. Applies the seeded
+# seedtry.sh <seed-id> <harness> <params> [fuel] : development helper. Applies the seeded
 # change in a scratch worktree (VP_REPO), runs one harness without native replay, removes the worktree.
-ID=$1; H=$2; P=$3
+ID=$1; H=$2; P=$3; F=${4:-0}
 WT=$(mktemp -d /tmp/sw.XXXXXX)
 git -C /repo worktree add -q --detach $WT HEAD || exit 3
 git -C $WT apply /verif/seeded/$ID/patch.diff || { git -C /repo worktree remove --force $WT; exit 3; }
-VP_REPO=$WT timeout 1500 /verif/bin/vpcheck explore --harness $H --params "$P" 2>&1 | tail -${TAIL:-8}
+VP_REPO=$WT timeout 1500 /verif/bin/vpcheck explore --harness $H --params "$P" --fuel $F 2>&1 | tail -${TAIL:-8}
 git -C /repo worktree remove --force $WT
